@@ -572,7 +572,7 @@ func ruleDbftState(c *RC) *RuleResult {
 	for i := 0; i < st.NumFields(); i++ {
 		f := st.Field(i)
 		r.Sites++
-		tn := namedName(f.Type())
+		tn := c.Prog.typeRole(namedName(f.Type()))
 		switch {
 		case f.Embedded() && (tn == "Context" || tn == "Config" || tn == "Mutex"):
 			r.ok("DBFT." + f.Name() + ": embedded " + tn)
@@ -581,7 +581,7 @@ func ruleDbftState(c *RC) *RuleResult {
 			r.ok("DBFT." + f.Name() + ": future-message cache (obligations in A-CACHE)")
 			continue
 		}
-		loc := "dbft." + f.Name()
+		loc := "dbft." + c.Prog.fieldRole(f, f.Name())
 		if b, ok := f.Type().Underlying().(*types.Basic); ok && b.Kind() == types.Bool {
 			// call-scoped flag
 			bad := ""
